@@ -110,6 +110,7 @@ def run(ctx):
     import gtirb
     if ctx.params.get("java_stage2_file"):
         return stage2(ctx, gtirb)
+    codecmon.private_serialization(gtirb, ctx)
     mon = codecmon.CodecMonitor(ctx, gtirb)
 
     def one(case):
